@@ -151,9 +151,14 @@ def judge(rep: Report, traces: list[dict], owners: list[dict]) -> None:
             probes_ok += 1
             rep.extra["corrupted_trace_verdict"] = v["verdict"]
             continue
+        op = t["op"]["name"] if t["op"]["name"] != "history" else t["op"]["more"] + "@disable-enable"
+        if v.get("late", "ok") != "ok":
+            rep.violation(f"{op}:{v['late']}",
+                          f"{t['mode']} run of {op}: the call returned but left work behind: started {t['final']['spawned']}, "
+                          f"terminal accesses after the return {t['final']['late']}; supported {t['term']['sup']}",
+                          {"kind": o["kind"], "scn": o["scn"], **{k: o[k] for k in ("bursts",) if k in o}})
         if v["verdict"] == "ok":
             continue
-        op = t["op"]["name"] if t["op"]["name"] != "history" else t["op"]["more"] + "@disable-enable"
         if v["verdict"].startswith("env:"):
             raise tlc.MachineryError(
                 f"the {t['mode']} tty device disagrees with Tty.tla's environment: {v} on {o.get('origin')} {op}")
